@@ -1359,7 +1359,15 @@ def _i_reversed(it, args, kw, node, fi):
 
 
 def _i_round(it, args, kw, node, fi):
-    return nf.fn("round", *args) if not all(is_num(a) for a in args) else args[0]
+    if not all(is_num(a) for a in args):
+        return nf.fn("round", *args)
+    x = nf.frac(args[0])
+    if len(args) > 1 and args[1] is not None:
+        n = nf.frac(args[1])
+        if n.denominator != 1:
+            raise it.err("round(): ndigits is not an integer", node, fi)
+        return Fraction(round(x, int(n)))
+    return Fraction(round(x))
 
 
 def _i_abs(it, args, kw, node, fi):
